@@ -58,6 +58,7 @@ def case_closed(case):
     z = ZL
     prof = tuple(np.full(len(z), x) for x in pv)
     modes = sl.resolve_modes(case["modes"], nx, ny, dom, case["halo"])
+    sl.pollute(*sl.padded_size(nx, ny, dom, case["halo"])[:2], dx, dy)
     mp = {"zero": (0.0, 0.0), "grid": (3 * dx, 2 * dy), "off": (13.0, 22.0)}[case["mp"]]
     fp = case["footprint"]
     lv = case["levels"]
@@ -67,8 +68,10 @@ def case_closed(case):
     v = []
     worst = 0.0
     n = 0
+    buf = np.zeros((ny, nx))  # one preallocated source map refilled in place
     for bg, (sname, q) in zip((0.0, 2.5, -4.0), srcs):
-        _, c, f = S0(q, z, prof, dom, lv, modes=modes, halo=case["halo"], meas_pt=mp, footprint=fp, analytic=True, precision="double", srf_bg_conc=bg)
+        buf[...] = q
+        _, c, f = S0(buf, z, prof, dom, lv, modes=modes, halo=case["halo"], meas_pt=mp, footprint=fp, analytic=True, precision="double", srf_bg_conc=bg)
         n += 1
         c, f = sl.as3d(c, len(lvl)), sl.as3d(f, len(lvl))
         cw, fw = halfspace.solve(q, dom, z[lvl] - z[0], pv, modes, case["halo"], meas_pt=mp, bg=bg, footprint=fp)
@@ -79,6 +82,47 @@ def case_closed(case):
                 v.append({"sub": "closed-form", "sig": "closed-form/%s/%s" % ("footprint" if fp else "dispersion", nm),
                           "msg": "analytic %s (%s source, bg %g) differs from the closed form by %.2e of the field maximum; config %s" % (nm, sname, bg, e, core.canon(case))})
     return {"v": v[:4], "nt": True, "n": n, "obs": {"worst_rel_err": worst}}
+
+
+def case_mean_profile(case):
+    """the horizontal-mean concentration of the NUMERICAL mode equals the closed form's linear profile bg - q_mean*h/Kz
+    (the trapezoid rule is exact for constant Kz), for float and for integer-typed node heights / profiles, on the same
+    source map refilled in place between the two calls"""
+    S0 = sl.solver()
+    pv = CONST[case["prof"]]
+    nx, ny, dom = 8, 6, (80.0, 90.0)
+    v = []
+    n = 0
+    for zkind in ("float", "int-z", "int-z-and-K"):
+        z = np.arange(1, 14) if zkind != "float" else ZL.copy()  # whole-metre nodes 1..13 m (growth sum(lambda dz) ~ 5)
+        zf = z.astype(float)
+        pvals = pv if zkind != "int-z-and-K" else (2, -1, 3, 1, 2)
+        prof = tuple(np.full(len(z), x, dtype=(np.int64 if zkind == "int-z-and-K" else float)) for x in pvals)
+        lv = [0, 3, len(z) - 1, 1]
+        buf = np.zeros((ny, nx))
+        for k, bg in enumerate((0.0, 2.5)):
+            buf[...] = sl.impulse(ny, nx, 1, 2) * (1.0 + k) + 0.25 * k
+            qm = buf.mean()
+            for an in (False, True):
+                _, c, f = S0(buf, z, prof, dom, lv, modes=(8, 6), halo=case["halo"], precision="double", srf_bg_conc=bg, analytic=an)
+                n += 1
+                # mean over the padded periodic domain: with a halo the cropped mean is not the spectral mean, so use halo=0 only for the mean law
+                if case["halo"] == 0.0:
+                    want = bg - qm * (zf[lv] - zf[0]) / float(pvals[4])
+                    got = np.asarray(c).reshape(len(lv), -1).mean(axis=1)
+                    e = np.abs(got - want).max() / max(np.abs(want).max(), abs(qm) * (zf[-1] - zf[0]) / float(pvals[4]))
+                    if not e <= 1e-10:
+                        v.append({"sub": "mean-profile", "sig": "mean-profile/%s/%s" % (zkind, "analytic" if an else "numeric"),
+                                  "msg": "%s mode, %s heights: mean concentration at levels %s is %s, closed form %s (profile %s, bg %g)" % ("analytic" if an else "numerical", zkind, lv, np.round(got, 6).tolist(), np.round(want, 6).tolist(), case["prof"], bg)})
+            # numerical == analytic field-wise for the mean-free part is the order ladder's job; here: typed twin == float twin
+            if zkind != "float":
+                _, c1, f1 = S0(buf, z, prof, dom, lv, modes=(8, 6), halo=case["halo"], precision="double", srf_bg_conc=bg)
+                _, c2, f2 = S0(buf.copy(), zf, tuple(p.astype(float) for p in prof), dom, lv, modes=(8, 6), halo=case["halo"], precision="double", srf_bg_conc=bg)
+                n += 2
+                e = max(sl.relerr(c1, c2, max(np.abs(c2).max(), 1e-300)), sl.relerr(f1, f2, max(np.abs(f2).max(), 1e-300)))
+                if not e <= 1e-12:
+                    v.append({"sub": "mean-profile", "sig": "typed-column/%s" % zkind, "msg": "numerical mode with %s differs from the same column as floats by %.2e of the maximum (halo %r, profile %s)" % (zkind, e, case["halo"], case["prof"])})
+    return {"v": v[:6], "nt": n, "key": core.canon(case), "n": n}
 
 
 def order_cases(tier):
@@ -153,6 +197,7 @@ def run(ctx):
         "non-trivial: every closed-form case; order cases with >= 4 resolved modes and at least one judged pair; evaluations counts solver executions"
     )
     ctx.run_cases(case_closed, closed_cases(ctx.tier), sub="closed-form")
+    ctx.run_cases(case_mean_profile, [{"prof": p, "halo": h} for p in CONST for h in (0.0, 13.0)], sub="mean-profile", chunksize=1)
     res = ctx.run_cases(case_order, order_cases(ctx.tier), sub="order", chunksize=1)
     ctx.cov["order_mode_pairs_judged"] = int(sum(r.get("obs", {}).get("mode_pairs_judged", 0) for r in res))
     mr = [r["obs"]["min_ratio"] for r in res if r.get("obs", {}).get("min_ratio") is not None]
